@@ -185,7 +185,7 @@ fn v1_with_final_nonce(key: &[u8; 32], n: &[u8], m: &[u8], f: &[u8]) -> Vec<u8> 
 fn public<V: Full>(prop: &mut Property, ctx: &Ctx) {
     let ks = Arc::new(keys::keyset::<V>(ctx.thorough(), ctx.seed));
     let name = V::NAME;
-    let lens: Vec<usize> = vec![0, 1, 47, 48, 49, 127, 128, 129, 4097];
+    let lens: Vec<usize> = vec![0, 1, 47, 48, 49, 127, 128, 129, 4097, 8191, 8192, 8193, 16385, 65537];
     let fts = footers();
     let ads = crate::c01::aads::<V>();
     let reps: u64 = if V::DET_SIG { 1 } else { ctx.tier.pick(2, 6) };
